@@ -21,7 +21,10 @@ PROP = dict(
                   "correspondence run only (their tables by the translator)"],
     assumptions=["a key event is modelled by (KeyIndex, KeyCode, character, modifier bits); a layout state by its u16 syllable code",
                  "the dictionary enters the soundness theorem as the predicate 'has a word for this syllable', with the premise "
-                 "that it has none for the empty syllable (proved for data/word.src)",
+                 "that it has none for the empty syllable (proved for data/word.src); in the editor-level theorems (stage B, "
+                 "buffer_syllables_from_layout) this is the hypothesis hne on the environment: hasPhrase d [empty syllable] strat = false "
+                 "for EVERY dictionary value d and strategy (keys change the dictionary by learning); all other components of the "
+                 "environment (engines, estimator, dictionary updates) are arbitrary",
                  "known finding F21: the listed (layout, reading) pairs are excluded from completeness by hypothesis",
                  "Pinyin: freedom from builder panics is established by correspondence, not by theorem"],
 )
@@ -42,7 +45,13 @@ MANIFEST = dict(
          "Inside the editor (stage B, over the validated editor model of C06, any environment whose layout is one of the "
          "layout models): one key in EnteringSyllable leaves the layout state well-formed and changes the pre-edit buffer only "
          "by inserting exactly the syllable the layout handed over (read() after Commit, or the Fuzzy payload), well-formed "
-         "and non-empty; this is a one-step theorem, its lift over whole editor sessions is by correspondence (typed "
+         "and non-empty (editor_inserts_what_layout_read); lifted over whole histories of the editor model "
+         "(buffer_syllables_from_layout, invariant BufferFromLayout: after EVERY key history - and every other public operation, "
+         "buffer_syllables_from_layout_ops; set_syllable_editor only with a well-formed state - in all four states the layout state is "
+         "well-formed and every syllable symbol in the pre-edit buffer was handed over by the layout from a well-formed state, is "
+         "well-formed and non-empty; proof: outside EnteringSyllable every arm inserts / overwrites character symbols only, "
+         "Proofs/EditorLinkSyl*.lean; hypothesis hne: the environment's dictionary has no word under the empty syllable, for every "
+         "dictionary value and lookup strategy). That the real Editor follows the model is by correspondence (typed "
          "through a real Editor in the harness). Tie: translator + exhaustive state-space correspondence through clone() "
          "for the seven finite layouts and the keyboards - theorem correspondence_lift (generic bisimulation lemma) turns "
          "'every visited transition agrees, visited set closed' into 'every operation list of any length agrees, hence is "
